@@ -141,6 +141,7 @@ CORPUS = {
                                                           "    ok = k < 3 and xs[k] > 1\n    mon.write(ok)\n    j = 0\n    while j < 2 and check(j + 20) > 0:\n        j = j + 1\n    k = k + 1\n    sleep(5)\n"),
     "comprehension-target-reuses-outer-names": S("title = 'abc'\nxs = [title + 1 for title in range(3)]\ncopy = title\nmon.write(copy)\nmon.write(xs[2])\ndef label(tag):\n    ys = [tag * 2 for tag in range(2)]\n    return tag\n"
                                                  "mon.write(label('t'))\nvals = [1, 2, 3]\nzs = [vals for vals in range(2)]\nmon.write(len(vals) + zs[1])\n"),
+    "chained-comparison-over-constants-at-module-level": S("ok = 0 < abs(-3) < 5\nnest = 1 < (1 < (2 < 3 < 9) < 3) < 3\nlow = 5 < max(1, 2) < 9\nmon.write(ok)\nmon.write(nest)\nmon.write(low)\ndef f():\n    return 0 < abs(-3) < 5\nmon.write(f())\n"),
     "main-loop-header-with-trailing-comment": S("k = 0\nwhile True:  # main loop\n    k = k + 1\n    mon.write(k)\n    sleep(5)\n"),
     "sleep-in-branches": S("k = 0\nwhile True:\n    if k % 2 == 0:\n        sleep(100)\n    else:\n        sleep(250)\n    k = k + 1\n    mon.write(k)\n"),
 }
